@@ -16,11 +16,16 @@ pub fn logit(p: f64) -> f64 {
 /// Calculates the one-parameter Box-Cox transformation with some power parameter `lambda`.
 pub fn boxcox(x: f64, lambda: f64) -> f64 {
     assert!(x > 0., "x must be positive");
-    if lambda == 0. {
-        x.ln()
+    let ln_x = x.ln();
+    let u = lambda * ln_x;
+    if lambda == 0. || u == 0. {
+        // lambda = 0, x = 1, or a product below the smallest subnormal: the transform is ln(x)
+        ln_x
     } else {
-        // (x^lambda - 1) / lambda, written with exp_m1 so that nothing cancels when lambda * ln(x) is small
-        (lambda * x.ln()).exp_m1() / lambda
+        // (x^lambda - 1) / lambda = ln(x) * (e^u - 1) / u with u = lambda * ln(x): exp_m1 so that nothing cancels
+        // when u is small, and the quotient taken by u (not by lambda) so that a subnormal u, which has lost
+        // digits of ln(x), cancels out instead of being blown up again by 1 / lambda
+        ln_x * (u.exp_m1() / u)
     }
 }
 
@@ -28,10 +33,13 @@ pub fn boxcox(x: f64, lambda: f64) -> f64 {
 /// shift parameter `alpha`.
 pub fn boxcox_shifted(x: f64, lambda: f64, alpha: f64) -> f64 {
     assert!(x + alpha > 0., "x + alpha must be positive");
-    if lambda == 0. {
-        (x + alpha).ln()
+    let ln_y = (x + alpha).ln();
+    let u = lambda * ln_y;
+    if lambda == 0. || u == 0. {
+        ln_y
     } else {
-        (lambda * (x + alpha).ln()).exp_m1() / lambda
+        // see boxcox
+        ln_y * (u.exp_m1() / u)
     }
 }
 
